@@ -114,6 +114,26 @@ def wl_remove_readd(ctx, rng, case):
     case.nontrivial = True
 
 
+def wl_long(ctx, rng, case):
+    """long-lived tables under the invariant: 40-100 operations on tiny auto-expanding tables (several expansions, removals, reloads)"""
+    if not ctx.state.get("icontract"):
+        raise Inconclusive("icontract unavailable")
+    cfg = ck.gen_cfg(rng)
+    cfg.auto_expand = True
+    cfg.capacity = rng.choice([1, 2, 3])
+    cfg.bucket_size = rng.choice([1, 2, 2, 3])
+    cfg.max_swaps = rng.choice([2, 3, 5, 8])
+    keys = ck.gen_keys(rng, cfg, rng.randint(20, 50))
+    if len(keys) < 10:
+        return
+    ops = ck.gen_history(rng, keys, rng.randint(40, 100), p_remove=0.25, p_expand=0.03, p_reload=0.05)
+    case.desc = dict(cfg.desc(), n_keys=len(keys), kind="long history")
+    for op in ops[:60]:
+        case.op(*op)
+    ex, stats = explore(ctx, rng, case, cfg, keys, ops, 1, extra=2 if ctx.tier == "quick" else 8)
+    case.nontrivial = stats["capacity_changes"] > 0
+
+
 def wl_repo_tests(ctx, rng, case):
     """the repository's own cuckoo tests as an additional realistic workload, run in a child pytest with the invariant attached"""
     import json
@@ -166,6 +186,7 @@ PROP = Prop(
         Workload("repo_tests", wl_repo_tests, quick=0, thorough=1),
         Workload("remove_readd", wl_remove_readd, quick=100, thorough=3000),
         Workload("histories", wl_histories, quick=200, thorough=5000),
+        Workload("long", wl_long, quick=30, thorough=1500),
     ],
     assumptions=["candidate buckets are recomputed independently: fp mod capacity and hash(str(fp)) mod capacity with the hash function the harness supplied "
                  "(reference FNV-1a for the default)", "invariants are evaluated at quiescent points: before/after public calls (icontract) and after every call (explicit)",
